@@ -134,7 +134,41 @@ func HarnessC18Seq() {
 	n := verifChoice(verifParam("len", 3) + 1)
 	s := c18Word(n)
 	verifObserve("s", s)
-	switch verifChoice(8) {
+	switch verifChoice(9) {
+	case 8: // multi-byte text: every sequence operation counts characters, not bytes
+		u := []string{"a\u00e9\u20ac", "\u4f60\u597d", "\u00e4b"}[verifChoice(3)]
+		rs := []rune(u)
+		sep := c18Word(1)
+		v, ok := c18Apply("join", u, sep)
+		want := ""
+		for i, r := range rs {
+			if i > 0 {
+				want += sep
+			}
+			want += string(r)
+		}
+		verifAssert(ok && v.String() == want, "join of multi-byte text must join characters")
+		v, ok = c18Apply("first", u, nil)
+		verifAssert(ok && v.String() == string(rs[0]), "first of multi-byte text")
+		v, ok = c18Apply("last", u, nil)
+		verifAssert(ok && v.String() == string(rs[len(rs)-1]), "last of multi-byte text")
+		v, ok = c18Apply("make_list", u, nil)
+		verifAssert(ok && v.Len() == len(rs) && v.Index(1).String() == string(rs[1]), "make_list of multi-byte text")
+		v, ok = c18Apply("length_is", u, len(rs))
+		verifAssert(ok && v.Bool(), "length_is counts characters")
+		v, ok = c18Apply("cut", u, string(rs[0]))
+		verifAssert(ok && v.String() == string(rs[1:]), "cut of a multi-byte character")
+		v, ok = c18Apply("truncatechars", u+"xyz", len(rs)+2)
+		verifAssert(ok && v.String() == string(rs[:len(rs)-1])+"...", "truncatechars counts characters")
+		k := verifInt()
+		verifAssume(k >= 0)
+		verifAssume(k <= 6)
+		v, ok = c18Apply("center", u, k)
+		tot := len(rs)
+		if k > tot {
+			tot = k
+		}
+		verifAssert(ok && len([]rune(v.String())) == tot, "center pads multi-byte text to the width in characters")
 	case 0:
 		v, ok := c18Apply("first", s, nil)
 		want := ""
